@@ -228,6 +228,38 @@ pub fn check_c05_srv(case: &C05Srv) -> CaseResult {
             nontrivial = true;
         }
     }
+    // the same chunkings with a server command (decode level set to the level it already has)
+    // processed between the reads: cancelling a half-finished read must not disturb framing
+    if let Some(p) = case.partitions.iter().find(|p| !matches!(p, Partition::Whole)) {
+        let parts = p.apply(&stream);
+        let mut steps: Vec<Step> = Vec::new();
+        for (i, b) in parts.iter().enumerate() {
+            steps.push(Step::Bytes(b.clone()));
+            steps.push(Step::Pause);
+            if i % 2 == 0 {
+                steps.push(Step::SetDecode(case.base.cfg.decode));
+                steps.push(Step::Pause);
+            }
+        }
+        steps.push(Step::Eof);
+        let run = run_server(
+            &case.base.cfg,
+            &steps,
+            &SrvOptions {
+                select_seed: case.base.select_seed,
+                ..Default::default()
+            },
+        );
+        if run.written_bytes() != ref_writes || run.calls != reference.calls {
+            return Err(format!(
+                "partition {} with a decode-level command between the reads: reply stream / handler calls differ from the one-frame-per-read run ({} vs {} bytes written)",
+                short_partition(p),
+                run.written_bytes().len(),
+                ref_writes.len()
+            ));
+        }
+        ok.label("commands_between_reads");
+    }
     if stream.len() > 260 {
         ok.label("stream:over_260");
     }
